@@ -913,7 +913,97 @@ def run_ext(m, var, acc):
 # ======================================================================================
 # driver
 # ======================================================================================
-FAMILIES = {"iv": run_iv, "ivs": run_ivs, "trim": run_trim, "ds": run_ds, "time": run_time,
+# ======================================================================================
+# [chain] two editing operations in place on ONE indexed TableCollection
+# ======================================================================================
+def run_chain(m, var, acc):
+    """op1 ; op2 applied in place to the tables of a tree sequence (which carry its index) must give what
+    op2 gives on a rebuilt, index-free copy of op1's result, and load exactly when that does: nothing an
+    earlier operation leaves behind (a stale index, cached state) may leak into the next."""
+    mode, q = var["mode"], var["q"]
+    base_case = {"fam": "chain", "member": m.desc(), "var": var}
+    acc.enter(base_case)
+    tc0 = build(m, mode, q, 0)
+    try:
+        base = tc0.tree_sequence().dump_tables()
+    except Exception as e:  # noqa
+        raise RuntimeError(f"harness: decorated member does not load: {e!r}")
+    hp = half_points(m)
+    nh = len(hp) - 1
+    times = cutoffs(snap(tc0))
+
+    def first_ops():
+        for bits in range(1, 2 ** nh - 1):
+            ivs = pattern_intervals(hp, bits, False)
+            yield ("keep_intervals", ivs), lambda t, ivs=ivs: t.keep_intervals(ivs, simplify=False, record_provenance=False)
+            if bits % 2:
+                yield ("delete_intervals", ivs), lambda t, ivs=ivs: t.delete_intervals(ivs, simplify=False, record_provenance=False)
+
+    def second_ops():
+        for t_ in times:
+            yield ("delete_older", t_), lambda t, t_=t_: t.delete_older(t_)
+        yield ("ltrim",), lambda t: t.ltrim(record_provenance=False)
+        yield ("rtrim",), lambda t: t.rtrim(record_provenance=False)
+        yield ("sort",), lambda t: t.sort()
+        yield ("delete_sites", [0]), lambda t: t.delete_sites([0], record_provenance=False) if t.sites.num_rows else None
+
+    def loads(t):
+        try:
+            t.tree_sequence()
+            return True, None
+        except Exception as e:  # noqa
+            return False, e
+
+    for d1, f1 in first_ops():
+        mid = base.copy()
+        try:
+            f1(mid)
+        except Exception:  # noqa: judged by the single-operation families
+            continue
+        for d2, f2 in second_ops():
+            case = dict(base_case, op=[list(d1), list(d2)])
+            # (a) really is one object through both steps: copy() would shed whatever op1 left behind
+            a = base.copy()
+            f1(a)
+            b = mid.copy()
+            b.drop_index()
+            ea = eb = None
+            try:
+                f2(a)
+            except Exception as e:  # noqa
+                ea = e
+            try:
+                f2(b)
+            except Exception as e:  # noqa
+                eb = e
+            acc.ev(1, bool(base.edges.num_rows))
+            if (ea is None) != (eb is None):
+                acc.fail("chain:raises_differ", f"{d1} ; {d2}: in place {ea!r}, on an index-free copy {eb!r}", case)
+                continue
+            if ea is not None:
+                continue
+            if snap(a) != snap(b):
+                acc.fail("chain:rows_differ", f"{d1} ; {d2} in place differs from the same on an index-free copy", case)
+                continue
+            if not b.has_index():
+                try:
+                    b.build_index()
+                except Exception:  # noqa
+                    continue
+            okb, errb = loads(b)
+            oka, erra = loads(a) if a.has_index() else (okb, errb)
+            if oka != okb:
+                acc.fail("chain:loadable_differs", f"{d1} ; {d2}: tree_sequence() in place -> {erra!r}, with a freshly "
+                         f"built index -> {errb!r}", case)
+            elif oka and a.has_index():
+                ta, tb = a.tree_sequence(), b.tree_sequence()
+                if ta.num_trees != tb.num_trees or any(x.parent_array.tolist() != y.parent_array.tolist()
+                                                       for x, y in zip(ta.trees(), tb.trees())):
+                    acc.fail("chain:trees_differ", f"{d1} ; {d2}: the index left in place gives other trees than a "
+                             f"freshly built one", case)
+
+
+FAMILIES = {"chain": run_chain, "iv": run_iv, "ivs": run_ivs, "trim": run_trim, "ds": run_ds, "time": run_time,
             "ext": run_ext}
 
 
@@ -954,6 +1044,10 @@ def plan(tier):
         # a retained / deleted region exactly one ulp wide
         add("iv", dict(N=2, G=3, times="id", flags=AS, grid="ulp"), [V("known", 0, 1)], 2)
         add("iv", dict(N=3, G=3, times="id", flags=AS, grid="ulp"), [V("unknown", 0, 0, combos=TWO_COMBOS)], 6)
+        # ---- chain ----
+        add("chain", dict(N=3, G=2, times="id", flags=AS), [V("unknown", 0)], 12)
+        add("chain", dict(N=4, G=2, times="id", flags=AS), [V("known", 1)], 40)
+        add("chain", dict(fixed=True), [V("unknown", 0), V("known", 1)], 1)
         # ---- ivs ----
         for n in (1, 2, 3):
             add("ivs", dict(N=n, G=2, times="id"), [V("known", 1)], 12)
@@ -1064,7 +1158,22 @@ def leaf_flags(N, ranks, cells):
     return [tuple(0 if u in par else 1 for u in range(N))]
 
 
+# hand-picked structures with nodes of several ages whose edges are partly whole-span (split by an interval
+# list) and partly per-tree (removed by a time cutoff): here an operation can bring the NUMBER of edge rows
+# back to what it was two steps earlier, which is all that has_index() looks at
+CHAIN_FIXED = [
+    dict(N=5, G=2, ranks=(0, 0, 1, 2, 3), parents=((2, 2, 3, -1, -1), (2, 2, 4, -1, -1)), flags=(1, 1, 0, 0, 0)),
+    dict(N=6, G=2, ranks=(0, 0, 0, 1, 2, 3), parents=((3, 3, 4, 4, -1, -1), (3, 3, 5, 5, -1, -1)), flags=(1, 1, 1, 0, 0, 0)),
+    dict(N=5, G=2, ranks=(0, 0, 1, 2, 3), parents=((2, 2, 3, -1, -1), (2, 2, 4, -1, -1)), flags=(1, 1, 1, 1, 1)),
+    dict(N=6, G=3, ranks=(0, 0, 0, 1, 2, 3), parents=((3, 3, 4, 4, -1, -1), (3, 3, 5, 5, -1, -1), (3, 3, 4, 4, -1, -1)),
+         flags=(1, 1, 1, 0, 0, 0)),
+]
+
+
 def members(b):
+    if "fixed" in b:
+        return iter([U.Member(d["N"], d["G"], tuple(d["ranks"]), tuple(tuple(c) for c in d["parents"]), tuple(d["flags"]))
+                     for d in CHAIN_FIXED])
     b = dict(b)
     if b.get("flags") == "leaves":
         b["flags"] = leaf_flags
@@ -1082,6 +1191,10 @@ def shards(tier, seed):
         if only and p["fam"] not in only:
             continue
         b = p["b"]
+        if "fixed" in b:
+            for k in range(len(CHAIN_FIXED)):
+                specs.append(dict(fam=p["fam"], b=b, vars=p["vars"], k=k, n=len(CHAIN_FIXED)))
+            continue
         cnt = U.count_members(b["N"], b["G"], b.get("times", "id"), b.get("flags", "all"))
         per = p["per"] * (4 if tier != "quick" and p["fam"] != "ext" else 1)
         n = max(1, -(-cnt // per))
